@@ -185,7 +185,7 @@ func c19Infer(c *vk.Ctx, id, ts string, soundness bool) (accepted bool) {
 
 // C19 — type inference is total and sound; type compatibility is symmetric.
 func C19(c *vk.Ctx) {
-	c.Rule("type strings: (a) every type the registry's base columns report, legal and illegal parameterisations (time zones, DateTime64 precisions 0..10, Decimal precisions at every width boundary, FixedString sizes incl. 0 / negative / non-numeric, enum definitions with quoted commas and parentheses, interval kinds, types the library does not know), each under Array / Nullable / LowCardinality / Map / Tuple wrappers to depth 1, a smaller base set to depth 2 (thorough 3); (b) ALL token strings of length <= n (quick 5, thorough 6) over a 25-token alphabet of type names, punctuation, parameters and junk; (c) nesting depth 10000. Oracle: Infer never panics; when it accepts, the column's type does not conflict with the request and a block of that type written by the reference model decodes to the written values. Conflicts is checked reflexive and symmetric on all ordered pairs of set (a) and against the documented equivalences. distinct_nontrivial = distinct type strings + ordered pairs.")
+	c.Rule("type strings: (a) every type the registry's base columns report, legal and illegal parameterisations (time zones, DateTime64 precisions 0..10, Decimal precisions at every width boundary, FixedString sizes incl. 0 / negative / non-numeric, enum definitions with quoted commas and parentheses, interval kinds, types the library does not know), each under Array / Nullable / LowCardinality / Map / Tuple wrappers to depth 1, a smaller base set to depth 2 (thorough 3); (b) ALL token strings of length <= n (quick 5, thorough 6) over a 25-token alphabet of type names, punctuation, parameters and junk; (c) nesting depth 10000; (d) every single edit (deletion, insertion or replacement by one of ()',= 0a- at every position, every truncation) of the set-(a) types with at most 3 parentheses; (e) ALL character strings of length <= m (quick 5, thorough 6) over the alphabet {' a = 1 , space - ( )} as the parameter list of Enum8 / Enum16 / DateTime / DateTime64 / Decimal / Decimal64 / FixedString / Map / Tuple / Nested, bare and under Nullable / Array. Oracle: Infer never panics; when it accepts, the column's type does not conflict with the request and a block of that type written by the reference model decodes to the written values. Conflicts is checked reflexive and symmetric on all ordered pairs of set (a) and against the documented equivalences. distinct_nontrivial = distinct type strings + ordered pairs.")
 	quick := c.Quick()
 	types := c19Types(quick)
 	accepted := 0
@@ -228,6 +228,73 @@ func C19(c *vk.Ctx) {
 	}
 	rec("", 0)
 	c.DistinctN(cnt / int64(max(c.N, 1)))
+	// (d) every single edit (byte deleted, byte replaced or inserted from a punctuation
+	// alphabet, every truncation) of the well-formed types up to wrapper depth 1
+	edits := []byte("()',= 0a-")
+	for i, ts := range types {
+		if strings.Count(ts, "(") > 3 || len(ts) > 80 {
+			continue
+		}
+		if c.Only == "" && !c.Mine(int64(i)) {
+			continue
+		}
+		seen := map[string]bool{ts: true}
+		try := func(m string) {
+			if seen[m] {
+				return
+			}
+			seen[m] = true
+			if c.Only != "" && c.Only != "edit/"+m {
+				return
+			}
+			c19Infer(c, "edit/"+m, m, false)
+			c.Eval("single edits", 1)
+			c.DistinctN(1)
+		}
+		for k := 0; k <= len(ts); k++ {
+			try(ts[:k])
+			if k < len(ts) {
+				try(ts[:k] + ts[k+1:])
+			}
+			for _, e := range edits {
+				try(ts[:k] + string(e) + ts[k:])
+				if k < len(ts) {
+					try(ts[:k] + string(e) + ts[k+1:])
+				}
+			}
+		}
+	}
+	// (e) parameter lists: ALL character strings of length <= m over a 9-character alphabet
+	// inside the parentheses of every parameterised family, bare and under a wrapper
+	m := 5
+	if !quick {
+		m = 6
+	}
+	chars := []byte("'a=1, -()")
+	fams := []string{"Enum8", "Enum16", "DateTime", "DateTime64", "Decimal", "FixedString", "Map", "Tuple", "Decimal64", "Nested"}
+	var pcnt int64
+	var prec func(pre []byte)
+	prec = func(pre []byte) {
+		mine := c.Only == "" && c.Mine(pcnt)
+		pcnt++
+		for _, f := range fams {
+			for _, wr := range []string{"%s", "Nullable(%s)", "Array(%s)"} {
+				ts := fmt.Sprintf(wr, f+"("+string(pre)+")")
+				if mine || c.Only == "param/"+ts {
+					c19Infer(c, "param/"+ts, ts, false)
+					c.Eval("parameter strings", 1)
+				}
+			}
+		}
+		if len(pre) == m {
+			return
+		}
+		for _, ch := range chars {
+			prec(append(pre, ch))
+		}
+	}
+	prec(nil)
+	c.DistinctN(pcnt * int64(len(fams)) * 3 / int64(max(c.N, 1)))
 	// (c) very deep nesting
 	if c.Shard == 0 || c.Only == "deep" {
 		for _, w := range []string{"Array", "Nullable", "LowCardinality", "Tuple"} {
